@@ -67,6 +67,14 @@ def gen(seed, tier):
             else:
                 segs.append(seg(0, [g.any_frame(r.choice(pool)), sentinel(g)]))
         cases.append(("C18-D%d" % i, "T", opts_str({"i": "x", "u": -1, "o": "x", "D": 1}), ";".join(segs)))
+    # a long outage (thorough tier: 162 s of refused attempts): the aircraft learned before it, position and all, are shown
+    # again at the first refresh after the reconnection (display on, all column groups, no expiry within the session)
+    if tier != "quick":
+        import props.common as pc
+        pool = r.sample([x for x in ICAOS if x != SENT], 2)
+        lines = pc.pair_frames(g, pool[0], 52.2, 4.1) + [g.f_df17(pool[0], g.me_velocity(1))] + [g.f_df11(pool[1])]
+        cases.append(("C18-outage", "T", opts_str({"i": "aAews", "u": -1, "o": "x", "d": 100000}),
+                      ";".join([seg(1, lines), "8:", seg(0, [sentinel(g)])])))
     # rows learned before an interruption survive it "subject to normal expiry": X is 5-6.5 s old (delete-after 7) when the
     # first sweep of the new connection runs; --update 2 so that a refresh shows the table after that sweep
     pool = r.sample([x for x in ICAOS if x != SENT], 3)
@@ -105,9 +113,9 @@ def compare(parts, impl, model):
     if len(pauses) == len(events):
         gi = 0
         for k, e in enumerate(events):
-            if e == 3:
+            if e in (3, 8):
                 continue
-            if k > 0 and events[k - 1] != 3 and gi < len(gaps):
+            if k > 0 and events[k - 1] not in (3, 8) and gi < len(gaps):
                 g = gaps[gi]
                 if pauses[k - 1] == 5 and not (3.5 <= g <= 9.0):
                     out.append("retry schedule: the model's loop pauses 5 s after attempt %d (event type %d), observed %.2f s" % (k - 1, events[k - 1], g))
@@ -129,7 +137,7 @@ def oracle(parts, outcome, obs):
     if d["alive"] != "1":
         fails.append("the decoder terminated during the session")
     events = [int(s.split(":", 1)[0]) for s in parts[3].split(";") if s]
-    want_conns = sum(1 for e in events if e != 3)
+    want_conns = sum(1 for e in events if e not in (3, 8))
     events = [0 if e == 6 else (2 if e == 7 else e) for e in events]
     if int(d["conns"]) != want_conns:
         fails.append("connections accepted %s, expected %d" % (d["conns"], want_conns))
@@ -154,12 +162,13 @@ def oracle(parts, outcome, obs):
     gi = 0
     pending_refuse = False
     for e in events:
-        if e == 3:
-            pending_refuse = True
+        if e in (3, 8):
+            pending_refuse = 162.0 if e == 8 else 0.001
             continue
         if pending_refuse and gi < len(gaps):
-            if not (3.0 <= gaps[gi] <= 9.0):
-                fails.append("connection after a refused attempt came after %.1f s, expected about 5 s" % gaps[gi])
+            lo = 3.0 if pending_refuse < 1 else pending_refuse
+            if not (lo <= gaps[gi] <= lo + 7.0):
+                fails.append("connection after refused attempts came after %.1f s, expected within about 5 s of the listener's return" % gaps[gi])
         pending_refuse = False
         gi += 1
     return fails
